@@ -105,11 +105,29 @@ def _run(args):
     return tr
 
 
+def _pf(chunk):
+    res = vh.eval_cases([(c[0], c[1]) for c in chunk])
+    return [r[0] != "panic" for r in res]
+
+
 def prefilter(cases):
     """Drop cases on which the parser panics in-process (they would take the whole batch down; C17 reports them).
     cases: list of (cfg_idx, code(str), label). Returns (kept, n_dropped)."""
-    res = vh.eval_cases([(c[0], c[1]) for c in cases])
-    kept = [c for c, r in zip(cases, res) if r[0] != "panic"]
+    if not cases:
+        return [], 0
+    vh.cfg_paths()
+    # balance by size: big files first, round-robin
+    order = sorted(range(len(cases)), key=lambda i: -len(cases[i][1]))
+    nchunks = min(NCPU, max(1, len(cases) // 50))
+    chunks = [[] for _ in range(nchunks)]
+    for k, i in enumerate(order):
+        chunks[k % nchunks].append(i)
+    keep = [True] * len(cases)
+    with multiprocessing.Pool(nchunks) as pool:
+        for idxs, oks in zip(chunks, pool.map(_pf, [[cases[i] for i in ch] for ch in chunks])):
+            for i, ok in zip(idxs, oks):
+                keep[i] = ok
+    kept = [c for c, k in zip(cases, keep) if k]
     return kept, len(cases) - len(kept)
 
 
@@ -121,10 +139,21 @@ def run_trees(cases, steps=2, per_tree=1500, use_cache=False, pool=None):
     base = scratch_dir("dt")
     jobs = []
     for ci, cs in sorted(by_cfg.items()):
-        for k in range(0, len(cs), per_tree):
+        # pack by bytes as well as by count so that a few huge files do not end up in one sequential tree
+        cur, cur_bytes, k = [], 0, 0
+        for c in cs:
+            cur.append(c)
+            cur_bytes += len(c[0])
+            if len(cur) >= per_tree or cur_bytes >= 400_000:
+                w = os.path.join(base, "t%d_%d" % (ci, k))
+                os.makedirs(w)
+                jobs.append((ci, cur, w, steps, use_cache))
+                cur, cur_bytes, k = [], 0, k + 1
+        if cur:
             w = os.path.join(base, "t%d_%d" % (ci, k))
             os.makedirs(w)
-            jobs.append((ci, cs[k:k + per_tree], w, steps, use_cache))
+            jobs.append((ci, cur, w, steps, use_cache))
+    jobs.sort(key=lambda j: -sum(len(c[0]) for c in j[1]))
     own = pool is None
     if own:
         pool = multiprocessing.Pool(min(NCPU, max(1, len(jobs))))
